@@ -400,6 +400,249 @@ theorem InvA.create {v : PV} {X X' : Nat → Nat} (hI : InvA v X) {dst : Nat} {a
         by_cases h : a.owner = o <;> simp only [h, if_true, if_false] at this ⊢ <;> omega)
   exact ⟨A2, by omega⟩
 
+theorem InvA.inc {v : PV} {X : Nat → Nat} (hI : InvA v X) (u a : Nat) :
+    InvA (v.inc u a) (fun o => X o + (if o = u then a else 0)) := by
+  refine ⟨hI.nodup, hI.dom, hI.fresh, fun o => ?_⟩
+  show upd v.userTotal u (v.userTotal u + a) o = v.ownedBy o + _
+  by_cases h : o = u
+  · subst h; rw [upd_same, hI.own o]; simp only [if_true]; omega
+  · rw [upd_other _ _ h, hI.own o]; simp only [h, if_false]; omega
+
+theorem InvA.supply {v : PV} {X : Nat → Nat} (hI : InvA v X) (sp : Nat) :
+    InvA { v with supply := sp } X := ⟨hI.nodup, hI.dom, hI.fresh, hI.own⟩
+
+theorem inc_zero (v : PV) (u : Nat) : v.inc u 0 = v := by
+  have : upd v.userTotal u (v.userTotal u + 0) = v.userTotal := by
+    funext o
+    by_cases h : o = u
+    · subst h; rw [upd_same]; rfl
+    · rw [upd_other _ _ h]
+  simp only [inc, this]
+
+/-! ### the endpoints on the view -/
+
+/-- take payments in, re-assign them to `orig`, add `amt` fresh units for `orig`, issue one token
+    for everything (enter: `amt` = farming tokens; compound: `amt` = reward; claim/merge: `amt = 0`) -/
+theorem Inv.remint {v v0 v3 : PV} {caller orig dst amt : Nat} {pays : List (Nat × Nat)} {merged : Attr}
+    (hI : Inv v) (hc : caller ∈ v.users) (hd : dst ∈ v.users)
+    (h0 : v.take caller pays = some v0) (h3 : v0.check orig pays = some v3)
+    (hm : merged.amt = amt + paySum pays) (ho : merged.owner = orig) :
+    Inv { (v3.inc orig amt).create dst merged with supply := v0.supply + amt } := by
+  obtain ⟨A0, T0, h', rfl⟩ := take_inv pays hI.toA hc h0
+  obtain ⟨A3, t, rfl⟩ := InvA.check (Y := fun _ => 0) A0 h3
+  obtain ⟨A5, T5⟩ := (A3.inc orig amt).create (X' := fun _ => 0) (dst := dst) (a := merged) hd (by
+    intro o
+    rw [ho, hm]
+    by_cases h : o = orig
+    · subst h; simp only [if_true]; omega
+    · simp only [h, if_false, fun e : orig = o => h e.symm]; omega)
+  refine (A5.supply _).toInv (fun _ => rfl) ?_
+  show v.supply + amt = _
+  rw [T5, hm, hI.sup, ← T0]
+  show _ = totalHeld { v with hold := h' } + _
+  omega
+
+theorem Inv.remint0 {v v0 v3 : PV} {caller orig dst : Nat} {pays : List (Nat × Nat)} {merged : Attr}
+    (hI : Inv v) (hc : caller ∈ v.users) (hd : dst ∈ v.users)
+    (h0 : v.take caller pays = some v0) (h3 : v0.check orig pays = some v3)
+    (hm : merged.amt = paySum pays) (ho : merged.owner = orig) :
+    Inv (v3.create dst merged) := by
+  have h := hI.remint (amt := 0) hc hd h0 h3 (by omega) ho
+  obtain ⟨_, _, h', rfl⟩ := take_inv pays hI.toA hc h0
+  obtain ⟨_, t, rfl⟩ := InvA.check (Y := fun _ => 0) (by assumption) h3
+  rw [inc_zero] at h
+  exact h
+
+theorem Inv.exit {v v0 : PV} {caller n a : Nat} {att : Attr}
+    (hI : Inv v) (hc : caller ∈ v.users)
+    (h0 : v.take caller [(n, a)] = some v0) (hat : v0.attrs n = some att) :
+    a ≤ v0.supply ∧ Inv { v0.dec att.owner a with supply := v0.supply - a } := by
+  obtain ⟨A0, T0, h', rfl⟩ := take_inv _ hI.toA hc h0
+  have hat' : v.attrs n = some att := hat
+  simp only [paySum, Nat.add_zero] at T0
+  have hs := hI.sup
+  refine ⟨by show a ≤ v.supply; omega, ?_⟩
+  refine ((A0.setTotal (X' := fun _ => 0) _ _ ?_)).toInv (fun _ => rfl) ?_
+  · intro o
+    have h1 := A0.own o
+    have h2 := A0.own att.owner
+    simp only [payOwned, hat', Option.map_some, Option.some.injEq, if_true, Nat.zero_add,
+      Nat.add_zero] at h1 h2
+    show upd v.userTotal att.owner (v.userTotal att.owner - a) o = _
+    have e1 : ({ v with hold := h' } : PV).userTotal o = v.userTotal o := rfl
+    have e2 : ({ v with hold := h' } : PV).userTotal att.owner = v.userTotal att.owner := rfl
+    rw [e1] at h1; rw [e2] at h2
+    by_cases h : o = att.owner
+    · subst h; rw [upd_same]; omega
+    · rw [upd_other _ _ h]
+      rw [if_neg (fun e => h e.symm)] at h1
+      omega
+  · show v.supply - a = totalHeld { v with hold := h' }
+    omega
+
+theorem Inv.transfer {v : PV} {src dst n a : Nat} (hI : Inv v) (hs : src ∈ v.users)
+    (hd : dst ∈ v.users) (hsome : (v.attrs n).isSome) (hle : a ≤ v.hold src n) :
+    Inv ((v.setHold src n (v.hold src n - a)).setHold dst n
+      ((v.setHold src n (v.hold src n - a)).hold dst n + a)) := by
+  obtain ⟨att, hat⟩ := Option.isSome_iff_exists.mp hsome
+  have hn : n ≤ v.lastNonce := by
+    by_contra hlt
+    have := hI.fresh n (by omega)
+    rw [hat] at this; cases this
+  obtain ⟨A1, T1⟩ := hI.toA.setHold (X' := fun o => if att.owner = o then a else 0)
+    (x := v.hold src n - a) hs hn hat (by intro o; split <;> omega)
+  obtain ⟨A2, T2⟩ := A1.setHold (X' := fun _ => 0) (c := dst) (n := n) (att := att)
+    (x := (v.setHold src n (v.hold src n - a)).hold dst n + a) hd hn hat
+    (by intro o; split <;> omega)
+  refine A2.toInv (fun _ => rfl) ?_
+  show v.supply = _
+  have := hI.sup
+  omega
+
+theorem Inv.of_eq {v v' : PV} (hI : Inv v) (h : v' = v) : Inv v' := h ▸ hI
+
 end PV
+
+/-! ## the helpers on the view -/
+
+theorem PosInv.toPV {s : St} (h : PosInv s) : (pv s).Inv := ⟨h.nodup, h.dom, h.fresh, h.sup, h.own⟩
+theorem PosInv.ofPV {s : St} (h : (pv s).Inv) : PosInv s := ⟨h.nodup, h.dom, h.fresh, h.sup, h.own⟩
+
+theorem takePayments_pv : ∀ (l : List (Nat × Nat)) {s s' : St} {c : Nat},
+    takePayments s c l = some s' → (pv s).take c l = some (pv s') := by
+  intro l
+  induction l with
+  | nil =>
+    intro s s' c h
+    simp only [takePayments, Option.some.injEq] at h
+    subst h; rfl
+  | cons p rest ih =>
+    intro s s' c h
+    obtain ⟨n, a⟩ := p
+    simp only [takePayments, Option.bind_eq_bind, Option.bind_eq_some_iff, req_eq_some,
+      sub?_eq_some] at h
+    obtain ⟨_, ha, _, hsome, h1, ⟨hle, rfl⟩, h2⟩ := h
+    simp only [PV.take, Option.bind_eq_bind, Option.bind_eq_some_iff, req_eq_some, sub?_eq_some]
+    exact ⟨(), ha, (), hsome, _, ⟨hle, rfl⟩, ih h2⟩
+
+theorem checkAndUpdate_pv : ∀ (l : List (Nat × Nat)) {s s' : St} {u : Nat},
+    checkAndUpdate s u l = some s' → (pv s).check u l = some (pv s') := by
+  intro l
+  induction l with
+  | nil =>
+    intro s s' u h
+    simp only [checkAndUpdate, Option.some.injEq] at h
+    subst h; rfl
+  | cons p rest ih =>
+    intro s s' u h
+    obtain ⟨n, a⟩ := p
+    simp only [checkAndUpdate, Option.bind_eq_bind, Option.bind_eq_some_iff] at h
+    obtain ⟨att, hat, h2⟩ := h
+    simp only [PV.check, Option.bind_eq_bind, Option.bind_eq_some_iff]
+    refine ⟨att, hat, ?_⟩
+    by_cases ho : att.owner ≠ u
+    · rw [if_pos ho] at h2 ⊢
+      exact ih h2
+    · rw [if_neg ho] at h2 ⊢
+      exact ih h2
+
+theorem intoPart_amt {a p : Attr} {x : Nat} (h : a.intoPart x = some p) : p.amt = x := by
+  unfold Attr.intoPart at h
+  split at h
+  · simp only [Option.some.injEq] at h; subst h; rename_i hx; exact hx.symm
+  · simp only [Option.bind_eq_bind, Option.bind_eq_some_iff, req_eq_some, Option.pure_def,
+      Option.some.injEq] at h
+    obtain ⟨_, _, rfl⟩ := h; rfl
+
+theorem mergeWith_amt_owner {a b m : Attr} (h : a.mergeWith b = some m) :
+    m.amt = a.amt + b.amt ∧ m.owner = a.owner := by
+  simp only [Attr.mergeWith, Option.bind_eq_bind, Option.bind_eq_some_iff, req_eq_some,
+    Option.pure_def, Option.some.injEq] at h
+  obtain ⟨_, _, rfl⟩ := h
+  exact ⟨rfl, rfl⟩
+
+theorem mergeParts_amt : ∀ (l : List (Nat × Nat)) {s : St} {base m : Attr},
+    mergeParts s base l = some m → m.amt = base.amt + paySum l ∧ m.owner = base.owner := by
+  intro l
+  induction l with
+  | nil =>
+    intro s base m h
+    simp only [mergeParts, Option.some.injEq] at h
+    subst h; exact ⟨rfl, rfl⟩
+  | cons p rest ih =>
+    intro s base m h
+    obtain ⟨n, a⟩ := p
+    simp only [mergeParts, Option.bind_eq_bind, Option.bind_eq_some_iff] at h
+    obtain ⟨att, _, part, hp, m1, hm1, h2⟩ := h
+    obtain ⟨e1, e2⟩ := ih h2
+    obtain ⟨e3, e4⟩ := mergeWith_amt_owner hm1
+    have e5 := intoPart_amt hp
+    exact ⟨by rw [e1, e3, e5]; simp only [paySum]; omega, by rw [e2, e4]⟩
+
+theorem mergeAll_amt {s : St} {l : List (Nat × Nat)} {m : Attr} (h : mergeAll s l = some m) :
+    m.amt = paySum l := by
+  cases l with
+  | nil => simp [mergeAll] at h
+  | cons p rest =>
+    obtain ⟨n, a⟩ := p
+    simp only [mergeAll, Option.bind_eq_bind, Option.bind_eq_some_iff] at h
+    obtain ⟨att, _, part, hp, h2⟩ := h
+    obtain ⟨e1, _⟩ := mergeParts_amt rest h2
+    rw [e1, intoPart_amt hp]; rfl
+
+theorem createToken_pv {s s' : St} {d n : Nat} {a : Attr} (h : createToken s d a = some (s', n)) :
+    pv s' = (pv s).create d a := by obtain ⟨_, _, rfl⟩ := createToken_spec h; rfl
+theorem claimBoostedYields_pv {s s' : St} {u r : Nat} (h : claimBoostedYields s u = some (s', r)) :
+    pv s' = pv s := by obtain ⟨_, _, rfl⟩ := claimBoostedYields_struct h; rfl
+theorem setFarmSupplyWeek_pv {s s' : St} {v : Nat} (h : setFarmSupplyWeek s v = some s') :
+    pv s' = pv s := by obtain ⟨_, _, rfl⟩ := setFarmSupplyWeek_spec h; rfl
+theorem updateEnergyAndProgress_pv {s s' : St} {u : Nat} (h : updateEnergyAndProgress s u = some s') :
+    pv s' = pv s := by obtain ⟨_, rfl⟩ := updateEnergyAndProgress_spec h; rfl
+theorem generate_pv {s s' : St} {c c' : Cache} (h : generate s c = some (s', c')) :
+    pv s' = pv s ∧ c'.supply = c.supply := by
+  obtain ⟨_, rfl, _, rfl, _⟩ := generate_spec h
+  exact ⟨rfl, rfl⟩
+theorem payReward_pv {s s' : St} {u b bo : Nat} (h : payReward s u b bo = some s') :
+    pv s' = pv s := by obtain ⟨_, _, rfl, _⟩ := payReward_spec h; rfl
+theorem payRewardIf_pv {s s' : St} {k : Kind} {u b bo : Nat} (h : payRewardIf s k u b bo = some s') :
+    pv s' = pv s := by
+  unfold payRewardIf at h
+  split at h
+  · exact payReward_pv h
+  · simp only [Option.some.injEq] at h; rw [← h]
+theorem claimOnlyBoostedPayment_pv {s s' : St} {u r : Nat} (h : claimOnlyBoostedPayment s u = some (s', r)) :
+    pv s' = pv s := by
+  simp only [claimOnlyBoostedPayment, Option.bind_eq_bind, Option.bind_eq_some_iff, Option.pure_def] at h
+  obtain ⟨⟨s1, r1⟩, h1, h⟩ := h
+  have k1 := claimBoostedYields_pv h1
+  split at h
+  · simp only [Option.some.injEq, Prod.mk.injEq] at h
+    obtain ⟨rfl, _⟩ := h; exact k1
+  · simp only [Option.bind_eq_some_iff, sub?_eq_some, Option.some.injEq, Prod.mk.injEq] at h
+    obtain ⟨_, _, rfl, _⟩ := h; exact k1
+theorem removeFarming_pv {s s' : St} {a p : Nat} (h : removeFarming s a p = some s') : pv s' = pv s := by
+  simp only [removeFarming, Option.bind_eq_bind, Option.bind_eq_some_iff, sub?_eq_some, Option.pure_def,
+    Option.some.injEq] at h
+  obtain ⟨_, _, rfl⟩ := h; rfl
+theorem compoundMove_pv {s s' : St} {b bo : Nat} (h : compoundMove s b bo = some s') : pv s' = pv s := by
+  simp only [compoundMove, Option.bind_eq_bind, Option.bind_eq_some_iff, sub?_eq_some, Option.pure_def,
+    Option.some.injEq] at h
+  obtain ⟨_, _, rfl⟩ := h; rfl
+theorem clearUserEnergyIfNeeded_pv {s s' : St} {u : Nat} (h : clearUserEnergyIfNeeded s u = some s') :
+    pv s' = pv s := by
+  unfold clearUserEnergyIfNeeded at h
+  split at h
+  · simp only [Option.some.injEq] at h; rw [← h]
+  · simp only [Option.bind_eq_bind, Option.bind_eq_some_iff, Option.pure_def, Option.some.injEq] at h
+    obtain ⟨_, _, _, _, _, _, rfl⟩ := h
+    rfl
+theorem claimTail_pv {s s' : St} {c : Bool} {u b bo : Nat} (h : claimTail s c u b bo = some s') :
+    pv s' = pv s := by
+  unfold claimTail at h
+  split at h
+  · simp only [Option.bind_eq_some_iff] at h
+    obtain ⟨s1, h1, h2⟩ := h
+    exact (updateEnergyAndProgress_pv h2).trans (compoundMove_pv h1)
+  · exact payReward_pv h
 
 end Mx.Farm
